@@ -32,6 +32,7 @@ EXPLANATION = (
 FOLLOWS_HELPERS = {"C02-R1": "universal over every function of both engine files; a helper that notifies is accepted only when every call of it is expanded inside the closed set, where R2/R3/R3c judge it",
                    "C02-R2": "closeNow / shutdownDrain are judged on a view in which engine helpers that notify, set Session::closed or change _sessions are expanded in place",
                    "C02-R3": "the connect handlers are judged on the same view: a failure path that notifies through a helper is counted where the helper is called",
+                   "C02-R3b": "process() is judged on a view in which a per-command dispatch method (any method that calls a connect handler) is expanded; kind tests are read from switch edges or an if-chain",
                    "C02-R3c": "shutdownDrain is judged on the same view",
                    "C02-R4": "pure bool predicates of the engine are expanded at the branch they decide (switch edges refine the origin atoms); a guard the rule cannot expand is a refusal raised by the rule itself",
                    "C02-R5": "helpers that only announce, and helpers that create the session called from a function that delivers data, are expanded in place; other moves leave fewer obligations than the floor, which is a refusal raised by the rule itself",
@@ -43,18 +44,37 @@ NOT_DECIDED = ["which close site is reached in which session state at run time (
                "observer registration racing the close"]
 
 
+def _cb_getter(f, call, cbname):
+    """the call is to a method defined in f's file whose every `return` hands back the member _cbs.<cbname> itself (a snapshot
+    getter: `{ lock_guard g(_cbMutex); return _cbs.onClose; }`) — its result is a copy of the callback like `cb = _cbs.onClose`"""
+    from .. import facts as _facts
+    call = strip_wrappers(call)
+    while call is not None and call.get("k") == "ctor" and len(call.get("args", [])) == 1:      # copy construction of the returned value
+        call = strip_wrappers(call["args"][0])
+    if call is None or call.get("k") not in ("mcall", "call") or not call.get("callee") or call["callee"].startswith("std::"):
+        return False
+    for fb in _facts._FB.values():
+        for g in fb.by_name.get(call["callee"], []):
+            if g.ok and g.file == f.file:
+                rets = [e.node for e in g.stmts() if e.node.get("k") == "ret"]
+                return bool(rets) and all(field_of(strip_wrappers(x.get("v"))) == CBS + cbname or
+                                          (strip_wrappers(x.get("v")) or {}).get("k") == "ctor" and len(strip_wrappers(x["v"]).get("args", [])) == 1 and field_of(strip_wrappers(strip_wrappers(x["v"])["args"][0])) == CBS + cbname
+                                          for x in rets)
+    return False
+
+
 def cb_invocations(f, cbname):
-    """invocations of a copy of _cbs.<cbname> (copy-then-invoke idiom) or of the member itself"""
+    """invocations of a copy of _cbs.<cbname> (copy-then-invoke idiom; the copy may be taken through a snapshot getter) or of the member itself"""
     copies = set()
     for n in f.nodes.values():
         if n.get("k") == "opcall" and n.get("op") == "=" and len(n["args"]) == 2:
-            if field_of(strip_wrappers(n["args"][1])) == CBS + cbname and n["args"][0].get("k") == "var":
+            if (field_of(strip_wrappers(n["args"][1])) == CBS + cbname or _cb_getter(f, n["args"][1], cbname)) and n["args"][0].get("k") == "var":
                 copies.add(n["args"][0]["n"])
     for e in f.stmts():
         if e.node.get("k") == "decl":
             for v in e.node["vars"]:
                 i = v.get("init")
-                if i is not None and any(x.get("k") == "member" and x["n"] == CBS + cbname for x in walk(i)) and "std::function" in v["t"]:
+                if i is not None and "std::function" in v["t"] and (any(x.get("k") == "member" and x["n"] == CBS + cbname for x in walk(i)) or _cb_getter(f, i, cbname)):
                     copies.add(v["n"])
     out = []
     for (e, tgt) in common.fn_invocations(f):
@@ -210,7 +230,7 @@ def _fields_written(g):
     return {n["n"] for n in g.nodes.values() if n.get("k") == "member" and access.classify(g, n) in ("write", "rw")}
 
 
-def _splice(raw, blocks, nodes, nxt, chain, blk, i, call, g):
+def _splice(raw, blocks, nodes, nxt, chain, blk, i, call, g, args=None, capmap=None):
     """expand the call `call` (element i of block blk) to the function g; returns the ids of the blocks created"""
     craw = _copy.deepcopy(g.raw)
     cm = _maxima(craw)
@@ -307,7 +327,23 @@ def _splice(raw, blocks, nodes, nxt, chain, blk, i, call, g):
     entry = blocks[craw["entry"] + bo]
     wr = None
     binds = []
-    args = call.get("args", [])
+    args = call.get("args", []) if args is None else args
+    if capmap:
+        # a local lambda's body names the variables it captured with declaration ids of its own: give them the ids they have in
+        # the function that created the lambda (the expanded body reads and writes those very variables)
+        declared = {p_["d"] + do for p_ in g.params}
+        for cb in craw["blocks"]:
+            for el in cb["elems"]:
+                if "root" in el:
+                    for x in walk(el["root"]):
+                        if x.get("k") == "decl":
+                            declared |= {v_["d"] for v_ in x["vars"]}
+        for cb in craw["blocks"]:
+            for el in cb["elems"]:
+                if "root" in el:
+                    for x in walk(el["root"]):
+                        if x.get("k") == "var" and x.get("n") in capmap and x.get("d") not in declared:
+                            x["d"] = capmap[x["n"]]
     for j, p in enumerate(g.params):
         a = args[j] if j < len(args) else None
         if a is None or a.get("def") or not _pure(a) or not p.get("n"):
@@ -388,6 +424,23 @@ def inlined(fb, f, want, key, depth=4, pimpl=None):
             el = blk["elems"][i]
             node = nodes.get(el.get("e")) if "e" in el and el.get("k") != "dtor_delete" else None
             i += 1
+            if node is not None and node.get("k") == "opcall" and node.get("op") == "()" and "$lambda" in (node.get("callee") or "") and node.get("args") \
+                    and strip_wrappers(node["args"][0]).get("k") == "var":
+                # a call of a local lambda (`auto fail = [&](…) {…}; … return fail(msg);`): its body runs here, on the variables it captured
+                lv = strip_wrappers(node["args"][0])
+                decl = [x for x in nodes.values() if x.get("k") == "decl" and any(v_["d"] == lv.get("d") and (strip_wrappers(v_.get("init")) or {}).get("k") == "lambda" and
+                                                                               strip_wrappers(v_["init"]).get("fn") == node["callee"] for v_ in x["vars"])]
+                cands = [lf for (ln, lf) in lambdas if lf.name == node["callee"] and lf.ok and lf.file == f.file]
+                if len(decl) == 1 and len(cands) == 1 and len(cands[0].params) == len(node["args"]) - 1:
+                    g = cands[0]
+                    lam = [strip_wrappers(v_["init"]) for v_ in decl[0]["vars"] if v_["d"] == lv.get("d")][0]
+                    if g.name not in chain[bid] and len(chain[bid]) <= depth and want(g):
+                        capmap = {c_["n"]: c_["d"] for c_ in lam.get("caps", []) if c_.get("n") != "this" and isinstance(c_.get("d"), int) and not c_.get("initcap")}
+                        work += _splice(raw, blocks, nodes, nxt, chain, blk, i - 1, node, g, args=node["args"][1:], capmap=capmap)
+                        lambdas += [x for x in g.lambdas if x not in lambdas]
+                        done.append(g.name)
+                        break
+                continue
             if node is None or node.get("k") not in ("mcall", "call") or not node.get("callee"):
                 continue
             via_pimpl = False
@@ -514,6 +567,14 @@ def r1(ctx, r):
             invs = cb_invocations(f, "onClose")
             if not invs or (f.kind == "method" and f.cls == cls and carried(f)):
                 continue
+            if f.kind == "lambda" and f.enclosing is not None and f.name in absorbed.get(f.enclosing.name, ()) and cg.lambda_role.get(f.name, {}).get("role") == "local":
+                # a local lambda of a closed-set function that is only ever called there (every mention of its variable is the callee of
+                # a call the view expanded): its notification was counted, and is judged, at those calls
+                dv = cg.lambda_role[f.name].get("d")
+                uses = [x for x in f.enclosing.nodes.values() if x.get("k") == "var" and x.get("d") == dv]
+                if uses and all((f.enclosing.nodes.get(f.enclosing.parent.get(x["id"])) or {}).get("k") == "opcall" and f.enclosing.nodes[f.enclosing.parent[x["id"]]].get("op") == "()"
+                                and f.enclosing.nodes[f.enclosing.parent[x["id"]]]["args"][0] is x for x in uses):
+                    continue
             for e in invs:
                 n += 1
                 r.instance()
@@ -619,22 +680,37 @@ def r3b(ctx, r):
     """a dequeued command that carries a session id the caller already holds always reaches its handler"""
     fb = ctx.fb()
     for cls, kinds in ((TCP, {"Connect": "doConnect"}), (UDP, {"Connect": "connectDo", "Via": "viaDo"})):
-        pr = engine_fn(fb, cls, "process")
-        for b in pr.blocks.values():
-            lab = b.label
-            if not lab or lab.get("k") != "case":
+        # (the dispatch switch may sit in a method process() calls per command: a method that calls a connect handler is expanded)
+        hs = {cls + "::" + x for x in kinds.values()}
+        pr = inlined(fb, engine_fn(fb, cls, "process"), _transitively(fb, lambda g, hs=hs: any(n.get("k") == "mcall" and n.get("callee") in hs for n in g.nodes.values()),
+                                                                       {cls + "::" + x for x in CLOSE_FNS + CONNECT_FNS[cls] + ("process",)}), "dispatch")
+        # where a command of that kind goes: the edge of `switch (c.t)` to `case Kind:`, or the true edge of `c.t == Kind` (if-chain)
+        starts = []
+        for bb in pr.blocks.values():
+            if bb.cond is None:
                 continue
-            en = lab["v"].get("n", "") if lab.get("v") else ""
-            if last(en) not in kinds:
-                continue
-            h = cls + "::" + kinds[last(en)]
+            if bb.term and bb.term.get("k") == "SwitchStmt":
+                for si, sx in enumerate(bb.succs):
+                    lab = bb.edge_label(si) if sx is not None else None
+                    if isinstance(lab, tuple) and lab[0] == "case" and lab[1] and last((strip_casts(lab[1]) or {}).get("n", "")) in kinds and (strip_casts(lab[1]) or {}).get("k") == "enum":
+                        starts.append((sx, last(strip_casts(lab[1])["n"])))
+            else:
+                cp = common.cmp_parts(strip_casts(bb.cond))
+                if cp and cp[0] == "==" and bb.succs[0] is not None:
+                    ks = [last(x["n"]) for x in walk(strip_casts(bb.cond)) if x.get("k") == "enum" and last(x["n"]) in kinds and "Cmd" in x["n"]]
+                    if len(ks) == 1:
+                        starts.append((bb.succs[0], ks[0]))
+        for (sb, kn) in starts:
+            b = pr.blocks[sb]
+            en = kn
+            h = cls + "::" + kinds[kn]
             r.instance()
 
             def is_handler(x, h=h):
                 return x.kind == "stmt" and x.node.get("k") == "mcall" and x.node.get("callee") == h
 
             def next_cmd(x):
-                return x.kind == "stmt" and ((x.node.get("k") == "decl" and any(v["n"] == "c" for v in x.node["vars"])) or (x.node.get("k") in ("opcall", "un") and "__begin" in show(x.node)))
+                return x.kind == "stmt" and ((x.node.get("k") == "decl" and not x.node.get("inlined_param") and any(v["n"] == "c" for v in x.node["vars"])) or (x.node.get("k") in ("opcall", "un") and "__begin" in show(x.node)))
             w = search(pr, ("block", b.id), next_cmd, stop=is_handler, eh=False) or search(pr, ("block", b.id), "exit", stop=is_handler, eh=False)
             r.expect(w is None, pr, None, "%s command can be dropped" % last(en),
                      "%s::process can finish a %s command without calling %s: the session id already returned to the caller then never gets a connect or close event" % (
@@ -674,26 +750,39 @@ def r3c(ctx, r):
         f = engine_view(fb, cls, engine_fn(fb, cls, "shutdownDrain"))
         SESS = cls + "::Session"
         sites = [(e, _first_cb_arg(e)) for e in cb_invocations(f, "onClose") if not _reads_session_id(f, _first_cb_arg(e), SESS)]
-        # kind tests `c.t == Kind` (each leaf of a disjunction has its own block); a site is guarded by them if it cannot be reached
-        # with all their true edges cut, and it covers the kinds from whose true edge it can be reached
-        tests = []
+        # kind tests: the true edge of `c.t == Kind` (each leaf of a disjunction has its own block) or the edge of `switch (c.t)` to
+        # `case Kind:`; a site is guarded by them if it cannot be reached with all those edges cut, and it covers the kinds from
+        # whose edge it can be reached (the other kinds' edges still cut, so the loop does not lead round to it)
+        tests = []      # (block, successor index, kind)
         for bb in f.blocks.values():
             c = strip_casts(bb.cond) if bb.cond is not None else None
-            if c is not None and c.get("k") in ("bin", "opcall") and c.get("op") == "==":
+            if c is None:
+                continue
+            if bb.term and bb.term.get("k") == "SwitchStmt":
+                for si, sx in enumerate(bb.succs):
+                    lab = bb.edge_label(si) if sx is not None else None
+                    if isinstance(lab, tuple) and lab[0] == "case" and lab[1]:
+                        ks = [last(x["n"]) for x in walk(lab[1]) if x.get("k") == "enum" and last(x["n"]) in KINDS[cls]]
+                        if len(ks) == 1:
+                            tests.append((bb, si, ks[0]))
+            elif c.get("k") in ("bin", "opcall") and c.get("op") == "==":
                 ks = [last(x["n"]) for x in walk(c) if x.get("k") == "enum" and last(x["n"]) in KINDS[cls]]
                 if len(ks) == 1 and bb.succs[0] is not None:
-                    tests.append((bb, ks[0]))
+                    tests.append((bb, 0, ks[0]))
+        cut = {(bb.id, si) for (bb, si, k) in tests}
+
+        def uncut(b_, si):
+            return (b_.id, si) not in cut
         covered = {}
         for (e, a) in sites:
-            cut = {bb.id for (bb, k) in tests}
-            unguarded = search(f, ("entry",), lambda x, e=e: x is e, eh=False, edge_ok=lambda b_, si: not (b_.id in cut and si == 0))
+            unguarded = search(f, ("entry",), lambda x, e=e: x is e, eh=False, edge_ok=uncut)
             if unguarded is not None:
                 r.instance()
                 r.fail(f, e, "residual close not tied to a command kind", "a close notification for a bare command id in shutdownDrain is reachable without a test of the command's kind")
                 continue
-            for (bb, k) in tests:
-                if search(f, ("block", bb.succs[0]), lambda x, e=e: x is e, eh=False, edge_ok=lambda b_, si: not (b_.id in cut and si == 0), include_start=True) is not None \
-                        or any(x is e for x in f.blocks[bb.succs[0]].elems):
+            for (bb, si, k) in tests:
+                if search(f, ("block", bb.succs[si]), lambda x, e=e: x is e, eh=False, edge_ok=uncut, include_start=True) is not None \
+                        or any(x is e for x in f.blocks[bb.succs[si]].elems):
                     # the id must be the one stored in that kind's payload
                     covered.setdefault(k, []).append((e, a))
         for kind, member in KINDS[cls].items():
@@ -717,6 +806,56 @@ class PredAbsSw(PredAbs):
     """PredAbs that also refines on the edges of a `switch`: the edge to `case V:` assumes `cond == V`; the default edge (also the
     edge past a switch that has no default) assumes `cond != V` for every labelled case.  The comparisons are offered to the rule's
     leaf function as ordinary `==` nodes, so an if/else-if chain over an enum and a switch over it refine the same atoms."""
+
+    def __init__(self, f, vocab, leaf, effects, init=T, flags=False, **kw):
+        if flags:
+            # local bool flags (`bool stale = false; switch (…) { case A: stale = !s->pending; break; … } if (!stale) …`): each becomes an
+            # atom that follows its assignments exactly where the assigned condition is readable, and is unknown otherwise
+            fl = {}
+            tested = {x.get("d") for b in f.blocks.values() if b.cond is not None for x in walk(b.cond) if x.get("k") == "var"}
+            for e in f.stmts():
+                if e.node.get("k") == "decl" and not e.node.get("inlined_param"):
+                    for v in e.node["vars"]:
+                        if v["t"].strip() in ("bool", "const bool") and v["d"] in tested and len(vocab.atoms) + len(fl) < 11:
+                            fl[v["d"]] = "flag:%s:%d" % (v["n"], v["d"])
+            if fl:
+                vocab = Vocab(list(vocab.atoms) + sorted(fl.values()))
+                leaf0, eff0 = leaf, effects
+
+                def leaf(n, leaf0=leaf0):
+                    r_ = leaf0(n)
+                    if r_ is None and n.get("k") == "var" and n.get("d") in fl:
+                        return A(fl[n["d"]])
+                    return r_
+
+                def value(x):
+                    x = strip_casts(x)
+                    if x is not None and x.get("k") == "bool":
+                        return T if x.get("cv") else F
+                    return translate(x, leaf) if x is not None else None
+
+                def store(a, x):
+                    fm = value(x)
+                    tf = fm if fm in (T, F) else total(fm)
+                    if tf is not None:
+                        return [("assign", a, tf)]
+                    return [("havoc", a), ("assume", Or(Not(A(a)), known_when(fm, True))), ("assume", Or(A(a), known_when(fm, False)))]
+
+                def effects(e, eff0=eff0):
+                    ops = list(eff0(e) or [])
+                    if e.kind == "stmt":
+                        n = e.node
+                        if n.get("k") == "decl":
+                            for v in n["vars"]:
+                                if v["d"] in fl:
+                                    ops += store(fl[v["d"]], v["init"]) if v.get("init") is not None else [("havoc", fl[v["d"]])]
+                        elif n.get("k") == "bin" and n.get("op") in _ASSIGN_OPS and strip_casts(n["lhs"]).get("k") == "var" and strip_casts(n["lhs"]).get("d") in fl:
+                            a = fl[strip_casts(n["lhs"])["d"]]
+                            ops += store(a, n["rhs"]) if n["op"] == "=" else [("havoc", a)]
+                        elif n.get("k") == "un" and ("++" in n.get("op", "") or "--" in n.get("op", "")) and strip_casts(n.get("v") or {}).get("d") in fl:
+                            ops.append(("havoc", fl[strip_casts(n["v"])["d"]]))
+                    return ops
+        PredAbs.__init__(self, f, vocab, leaf, effects, init=init, **kw)
 
     def _edge(self, st, b, si):
         t = b.term
@@ -799,7 +938,7 @@ def r4(ctx, r):
         return None
     if not any(e.node.get("k") == "decl" and not e.node.get("inlined_param") and any(v["t"] in CMD for v in e.node["vars"]) for e in f.stmts()):
         raise AnalysisBroken("process(): the per-command loop variable (a TcpEngine::Command) was not found")
-    pa = PredAbsSw(f, vocab, leaf, eff, init=excl)
+    pa = PredAbsSw(f, vocab, leaf, eff, init=excl, flags=True)
     closes = [e for e in f.stmts() if e.node.get("k") == "mcall" and e.node.get("callee") == TCP + "::closeNow"]
     if not closes:
         raise AnalysisBroken("process() no longer calls closeNow for Cmd::Close")
@@ -819,22 +958,43 @@ def r4(ctx, r):
                  "a timer-originated close command reaches closeNow without the condition that armed the timer being re-checked (connect still pending / handshake still in "
                  "progress / write queue still non-empty): a stale timeout closes a healthy session (known: %s)" % ",".join(pa.describe(e)),
                  okdesc="process(): timer closes re-validated before closeNow")
-    # the timer handlers run on the TimerService thread and may only enqueue
-    for h in ("handleConnectTimeout", "handleHandshakeTimeout", "handleWriteStallTimeout"):
+    # the timer handlers run on the TimerService thread and may only enqueue — judged over what a handler runs, not its own body
+    # alone: a call to another method of the engine is followed (one definition, same file) and held to the same terms; the closure
+    # stops at enqueue() and at the Command factories, whose bodies are the hand-over itself
+    def closure(g):
+        seen, work, bad, touches = {}, [g], [], []
+        while work:
+            x = work.pop()
+            if (x.name, x.line) in seen:
+                continue
+            seen[(x.name, x.line)] = x
+            touches += [n["n"] for n in x.nodes.values() if n.get("k") == "member" and n["n"].startswith(TCP + "::_") and n["n"] not in (TCP + "::_cmds",)]
+            for (e, n, c) in ctx.cg().callees_of(x):
+                if c == TCP + "::enqueue" or c.startswith(TCP + "::Command::") or c.startswith("std::"):
+                    continue
+                if c.startswith(TCP + "::") and not c.endswith("<ctor>"):
+                    defs = [h_ for h_ in fb.by_name.get(c, []) if h_.ok and h_.file == g.file]
+                    if len({(h_.file, h_.line) for h_ in defs}) != 1:
+                        raise AnalysisBroken("%s calls %s, which the rule cannot resolve to one definition" % (short(g.name), short(c)))
+                    work.append(defs[0])
+                else:
+                    bad.append(c)
+        return list(seen.values()), sorted(set(bad)), sorted(set(touches))
+    ORIG = (("handleConnectTimeout", "ConnectTimeout"), ("handleHandshakeTimeout", "HandshakeTimeout"), ("handleWriteStallTimeout", "WriteStall"))
+    for h, o in ORIG:
         g = engine_fn(fb, TCP, h)
         r.instance()
-        callees = {c for (e, n, c) in ctx.cg().callees_of(g)}
-        bad = [c for c in callees if not (c == TCP + "::enqueue" or c.startswith(TCP + "::Command::") or c.startswith("std::"))]
-        touches = [n["n"] for n in g.nodes.values() if n.get("k") == "member" and n["n"].startswith(TCP + "::_") and n["n"] not in (TCP + "::_cmds",)]
+        fns, bad, touches = closure(g)
         r.expect(not bad and not touches, g, None, "%s does more than enqueue" % h, "%s runs on the timer thread but calls %s / touches %s" % (h, bad, touches),
                  okdesc="%s only enqueues a close command" % h)
-    # origins are what the handlers say
-    for h, o in (("handleConnectTimeout", "ConnectTimeout"), ("handleHandshakeTimeout", "HandshakeTimeout"), ("handleWriteStallTimeout", "WriteStall")):
-        g = engine_fn(fb, TCP, h)
+        # origins are what the handlers say: the enumerator is named in the handler, or in a method only it runs that names no other origin
         r.instance()
-        r.expect(any(x.get("k") == "enum" and last(x["n"]) == o for x in g.nodes.values()), g, None, "%s origin" % h, "%s does not tag its close command with CloseOrigin::%s" % (h, o),
-                 okdesc="%s tags CloseOrigin::%s" % (h, o))
 
+        def names(x, which):
+            return any(y.get("k") == "enum" and last(y["n"]) == which for y in x.nodes.values())
+        tagged = names(g, o) or any(names(x, o) and not any(names(x, o2) for (h2, o2) in ORIG if o2 != o) for x in fns)
+        r.expect(tagged, g, None, "%s origin" % h, "%s does not tag its close command with CloseOrigin::%s" % (h, o),
+                 okdesc="%s tags CloseOrigin::%s" % (h, o))
 
 def r5(ctx, r):
     fb = ctx.fb()
@@ -903,7 +1063,9 @@ def r6(ctx, r):
                 continue
             if kind == "read":
                 continue
-            n += 1
+            # an increment inside an allocator method (the incremented value is what it returns) stands for each of its call sites
+            n += max(1, len([1 for (g, e2, nd) in ctx.cg().callers.get(f.name, []) if g.ok and g.file == f.file])) if f.kind == "method" and any(
+                x.node.get("k") == "ret" and any(y is node for y in walk(x.node)) for x in f.stmts()) else 1
             r.instance()
             ok = par is not None and ((par.get("k") == "opcall" and par.get("op") == "++") or (par.get("k") == "un" and "++" in par.get("op", "")) or
                                       (par.get("k") == "mcall" and last(par.get("callee", "")) == "fetch_add" and const_value(par["args"][0]) == 1))
